@@ -3,3 +3,4 @@ import PhyloModel.Props.C02
 #print axioms C02.reject_unterminated
 #print axioms C02.labels_ok
 #print axioms C02.normal_form
+#print axioms C02.reject_unbalanced
